@@ -142,7 +142,11 @@ class Summ:
         self.i_first, self.i_last, self.multi, self.words = i_first, i_last, multi, words
 
     def key(self):
-        return (self.first_kind, self.first_begin, self.i_first, self.i_last, self.multi)
+        # the classes of the role-bearing (value-carrying) words still pending in this entry are part of the configuration, so
+        # that every alternative word class of a position reaches the reductions that consume it with its own value; a set,
+        # so that repetition inside list constructs stays finite
+        sig = frozenset((t.role, w.name) for (w, t, _v) in self.words if t.role and not t.role.startswith("tag"))
+        return (self.first_kind, self.first_begin, self.i_first, self.i_last, self.multi, sig)
 
 
 ACC = "ACC"
@@ -179,6 +183,12 @@ class Explorer:
         self.samples = []
         self.flags_touched = set()
         self.visited_lex = set()
+        self.n_split_evaluations = 0
+        self._memo = {}
+        self._oracle_seen = set()
+        self.last_mkey = None
+        self.n_memo_hits = 0
+        self._deps = {}
         for a in spec.accumulators:
             if a not in self.gm.nonterminals:
                 raise AnalysisError(f"spec {spec.name}: level accumulator `{a}` is not a nonterminal of the grammar "
@@ -208,21 +218,173 @@ class Explorer:
             raise AnalysisError(f"production {prod} bound to unknown function {prod.func}")
         if any(has_top(v) for v in vals):
             return TOP, True
+        # memo: an action is a function of its operands (and, for the few that read them, of the lexer flags / the stack below)
+        mkey = None
+        try:
+            dep = self._action_deps(f)
+            mkey = (prod.number, _freeze(vals), self.cur_flags if dep[0] else None, _freeze(below) if dep[1] else None)
+            hit = self._memo.get(mkey)
+        except TypeError:
+            hit, mkey = None, None
+        if hit is not None:
+            self.n_actions_evaluated += 1
+            self.n_memo_hits += 1
+            kind, payload = hit
+            self.last_mkey = mkey
+            if kind == "value":
+                # the operands were not touched (the action did not run): only the result is copied
+                return copy.deepcopy(payload), False
+            raise payload
+        self.last_mkey = mkey
+        # the action mutates its operands in place; sibling configurations share them: run on a private copy
+        try:
+            vals0 = copy.deepcopy(list(vals))
+        except Exception:
+            vals0 = None
+        vals = copy.deepcopy(list(vals))
         yp = YP([None] + list(vals), below)
         it = Interp(self.model, self.gm.tokens_ns, Obj(**dict(self.cur_flags)), self_attrs=self.self_attrs)
         try:
             it.call_func(f, [yp])
             self.n_actions_evaluated += 1
+            if mkey is not None and self.self_attrs == it.self_attrs:
+                self._memo[mkey] = ("value", copy.deepcopy(yp.values[0]))
             return yp.values[0], False
+        except (PyRaise, Raised) as ex:
+            if mkey is not None:
+                self._memo[mkey] = ("raise", ex)
+            raise
         except (NonUniform, LexUnknown) as e:
+            if vals0 is not None:
+                merged = self._per_exemplar(prod, f, vals0, below, str(e))
+                if merged is not None:
+                    if merged[0] == "value":
+                        self.n_actions_evaluated += 1
+                        self.n_split_evaluations += 1
+                        return merged[1], False
+                    return TOP, True
+            if isinstance(e, NonUniform) and self._case_sensitive(prod, f, vals0, below):
+                # the exemplars of every word involved differ in letter case only, yet the action branches differently
+                self.add("O-case", f"{self.spec.name}: {prod.func} treats the spellings of a word differently on `{prod}`",
+                         f"the action's control flow depends on the letter case of a word of the statement ({str(e)[:120]})",
+                         self.render(self._cur_ctx))
+                return TOP, True
             self.n_unevaluated += 1
             self.unevaluated[f"{prod.func}: {str(e)[:90]}"] += 1
             return TOP, True
 
+    def _action_deps(self, f):
+        """(reads lexer flags, reads the parser stack below the production) for an action and the methods it calls"""
+        if f.id in self._deps:
+            return self._deps[f.id]
+        import ast as _ast
+        seen, st = set(), [f]
+        lexer = stack = False
+        methods = self.model.parser_methods()
+        while st:
+            g = st.pop()
+            if g.id in seen:
+                continue
+            seen.add(g.id)
+            for n in _ast.walk(g.node):
+                if isinstance(n, _ast.Attribute) and n.attr == "lexer":
+                    lexer = True
+                if isinstance(n, _ast.Subscript) and isinstance(n.value, _ast.Name) and n.value.id == "p" and \
+                        isinstance(n.slice, _ast.UnaryOp):
+                    stack = True
+                if isinstance(n, _ast.Subscript) and isinstance(n.value, _ast.Name) and n.value.id == "p" and \
+                        not isinstance(n.slice, (_ast.Constant, _ast.Slice)):
+                    stack = True        # computed index: may be negative
+                if isinstance(n, _ast.Call) and isinstance(n.func, _ast.Attribute) and isinstance(n.func.value, _ast.Name) \
+                        and n.func.value.id == "self" and n.func.attr in methods:
+                    st.append(methods[n.func.attr])
+        self._deps[f.id] = (lexer, stack)
+        return self._deps[f.id]
+
+    def _per_exemplar(self, prod, f, vals0, below, why):
+        """The action is not uniform on the word classes (its control flow depends on a feature in which the exemplars of a class
+        differ).  Evaluate it once per exemplar on the projected (concrete) values and zip the results back into a lock-step
+        value; the value oracle then judges every exemplar.  When the results cannot be zipped (different shapes) the words of
+        one class - which the fragment spec, written from the property, treats as equivalent - are handled in structurally
+        different ways: reported as O-uniform."""
+        width = None
+        for v in _leaves(vals0) + _leaves(below):
+            if isinstance(v, W):
+                width = len(v.ex)
+                break
+        if width is None:
+            return None
+        results, errors = [], []
+        for i in range(width):
+            vi = [_project(v, i) for v in copy.deepcopy(vals0)]
+            bi = [_project(b, i) for b in copy.deepcopy(below)]
+            yp = YP([None] + vi, bi)
+            it = Interp(self.model, self.gm.tokens_ns, Obj(**dict(self.cur_flags)), self_attrs=self.self_attrs)
+            try:
+                it.call_func(f, [yp])
+                results.append(yp.values[0])
+                errors.append(None)
+            except (PyRaise, Raised) as ex:
+                results.append(None)
+                errors.append(f"raises {ex}")
+            except (NonUniform, LexUnknown):
+                return None
+        shown = self.render(self._cur_ctx)
+        if any(errors) and not all(errors):
+            i_ok, i_bad = errors.index(None), [k for k, e in enumerate(errors) if e][0]
+            self.add("O-uniform", f"{self.spec.name}: {prod.func} raises for some words of a class only on `{prod}`",
+                     f"exemplar #{i_bad} of the word classes makes the action fail ({errors[i_bad][:100]}) while exemplar #{i_ok} does not: "
+                     f"words the property treats alike are handled differently ({why[:100]})", shown)
+            return ("finding",)
+        if all(errors):
+            return None
+        try:
+            return ("value", _zip(results))
+        except _ShapeMismatch as sm:
+            self.add("O-uniform", f"{self.spec.name}: {prod.func} handles the words of one class in structurally different ways on `{prod}`",
+                     f"{sm}; the fragment treats these words as equivalent (same kind of name / number / keyword spelling): ({why[:100]})", shown)
+            return ("finding",)
+
+    def _case_sensitive(self, prod, f, vals0, below):
+        """the action is not uniform on the word classes as given; it IS uniform once every word whose exemplars differ in letter
+        case only is replaced by a single spelling: the control flow depends on the case of such a word"""
+        if vals0 is None:
+            return False
+        changed = [False]
+
+        def coll(v, d=0):
+            if isinstance(v, W):
+                if all(isinstance(x, str) for x in v.ex) and len({x.upper() for x in v.ex}) == 1:
+                    changed[0] = True
+                    return v.ex[0]
+                return v
+            if d > 8:
+                return v
+            if isinstance(v, dict):
+                return {coll(k, d + 1): coll(x, d + 1) for k, x in v.items()}
+            if isinstance(v, list):
+                return [coll(x, d + 1) for x in v]
+            if isinstance(v, tuple):
+                return tuple(coll(x, d + 1) for x in v)
+            return v
+        vals1 = [coll(v) for v in vals0]
+        if not changed[0]:
+            return False
+        it = Interp(self.model, self.gm.tokens_ns, Obj(**dict(self.cur_flags)), self_attrs=self.self_attrs)
+        try:
+            it.call_func(f, [YP([None] + vals1, [coll(b) for b in copy.deepcopy(below)])])
+            return True
+        except (NonUniform, LexUnknown):
+            return False
+        except (PyRaise, Raised):
+            return True
+
     def reduce_all(self, stack, tt, ctx_words, cur_word):
         """apply reductions until tt can be shifted; returns (stack, shift_state | 'ACCEPT') or None"""
-        vals = copy.deepcopy([e.val for e in stack])     # actions mutate in place; siblings must not see it
-        stack = [Entry(e.state, e.summ, v, e.sym) for e, v in zip(stack, vals)]
+        self._cur_ctx = ctx_words + ([cur_word] if cur_word else [])
+        # actions mutate their operands in place and sibling configurations share the parent's stack entries: the operands
+        # of every reduction are deep-copied at the reduction (not the whole stack at every transition)
+        stack = list(stack)
         while True:
             s = stack[-1].state
             act = self.defaulted[s] if s in self.defaulted else self.action[s].get(tt)
@@ -237,14 +399,10 @@ class Explorer:
             self.reduced_by[p.func] += 1
             rhs = stack[len(stack) - p.len:] if p.len else []
             summ = self.summarize(p, rhs, ctx_words, cur_word)
-            vals = [e.val for e in rhs]
-            old_vals = None
-            if self.oracle is not None:
-                try:
-                    old_vals = copy.deepcopy(vals)
-                except Exception:
-                    old_vals = None
+            vals = [e.val for e in rhs]          # never mutated here: run_action works on a private copy
+            old_vals = vals if (self.oracle is not None and p.name in self.spec.accumulators) else None
             below = [e.val for e in stack[:len(stack) - p.len]]
+            self.last_mkey = None
             try:
                 new, tainted = self.run_action(p, vals, below)
             except PyRaise as pr:
@@ -256,7 +414,15 @@ class Explorer:
                 self.add("O-raise", f"{self.spec.name}: {p.func} raises {r.cls_name} on `{p}`",
                          f"explicit raise in the action: {r.text}", self.render(ctx_words))
                 return "RAISED"
-            if self.oracle is not None and not tainted:
+            okey = None
+            if self.oracle is not None and not tainted and self.last_mkey is not None and old_vals is not None:
+                okey = (self.last_mkey, tuple((e.summ if e.summ is ACC or e.summ is None else
+                                               tuple((w.name, t.kind, t.begin, t.role) for (w, t, _v) in e.summ.words)) for e in rhs))
+                if okey in self._oracle_seen:
+                    okey = "seen"
+                else:
+                    self._oracle_seen.add(okey)
+            if self.oracle is not None and not tainted and okey != "seen":
                 red = Reduction()
                 red.prod, red.func, red.rhs, red.old_vals, red.new, red.lhs = p, p.func, rhs, old_vals, new, p.name
                 red.ctx_path = ctx_words
@@ -364,11 +530,15 @@ class Explorer:
                     self.add("O-accept", f"{spec.name}: end of statement shifts instead of accepting", "", self.render(ctx_words))
             for (w, t, ys) in moves.values():
                 self.n_trans += 1
+                wit = self.render(ctx_words + [w])
                 try:
                     lr = self.lm.step(cur.flags, w)
                 except NonUniform as e:
-                    raise AnalysisError(f"spec {spec.name}: lexer not uniform on class {w.name}: {e}")
-                wit = self.render(ctx_words + [w])
+                    rule = "O-case" if (w.kind == "KW" and w.case == "other") else "O-uniform"
+                    self.add(rule, f"{spec.name}: the lexer treats the words of class `{w.name}` differently (segment {t.kind})",
+                             f"exemplars {list(w.exemplars)[:6]}: {str(e)[:160]}; the fragment (written from the property) treats these "
+                             "words as equivalent in this position" + (" - they are spellings of one keyword" if rule == "O-case" else ""), wit)
+                    continue
                 self.visited_lex.add((cur.flags, w))
                 self.check_case(cur.flags, w, lr, wit)
                 if lr.raised:
@@ -423,6 +593,112 @@ class Explorer:
                      "keyword token values must be upper-cased so that actions see one spelling", wit)
         elif lr.type == "ID" and lr.value_kind != "raw":
             self.add("O-case", f"{self.spec.name}: identifier `{w.show}` re-cased by the lexer", "", wit)
+
+
+def _freeze(v, d=0):
+    if isinstance(v, (str, int, float, bool, W)) or v is None:
+        return v
+    if d > 14:
+        raise TypeError("too deep")
+    if isinstance(v, dict):
+        return ("d", tuple((_freeze(k, d + 1), _freeze(x, d + 1)) for k, x in v.items()))
+    if isinstance(v, list):
+        return ("l", tuple(_freeze(x, d + 1) for x in v))
+    if isinstance(v, tuple):
+        return ("t", tuple(_freeze(x, d + 1) for x in v))
+    raise TypeError("unfreezable")
+
+
+class _ShapeMismatch(Exception):
+    pass
+
+
+def _leaves(v, out=None, d=0):
+    out = [] if out is None else out
+    if isinstance(v, W):
+        out.append(v)
+    elif d > 8:
+        pass
+    elif isinstance(v, dict):
+        for k, x in v.items():
+            _leaves(k, out, d + 1)
+            _leaves(x, out, d + 1)
+    elif isinstance(v, (list, tuple)):
+        for x in v:
+            _leaves(x, out, d + 1)
+    return out
+
+
+def _project(v, i, d=0):
+    if isinstance(v, W):
+        return v.ex[i]
+    if d > 10:
+        return v
+    if isinstance(v, dict):
+        out = type(v)() if not isinstance(v, collections.defaultdict) else collections.defaultdict(v.default_factory)
+        for k, x in v.items():
+            out[_project(k, i, d + 1)] = _project(x, i, d + 1)
+        return out
+    if isinstance(v, list):
+        return [_project(x, i, d + 1) for x in v]
+    if isinstance(v, tuple):
+        return tuple(_project(x, i, d + 1) for x in v)
+    return v
+
+
+def _zip(rs, d=0):
+    """zip per-exemplar concrete results into one lock-step value"""
+    first = rs[0]
+    if d > 12:
+        raise _ShapeMismatch("too deep")
+    if all(isinstance(r, dict) for r in rs):
+        keysets = [list(r.keys()) for r in rs]
+        if all(ks == keysets[0] for ks in keysets):
+            return {k: _zip([r[k] for r in rs], d + 1) for k in keysets[0]}
+        if len({len(ks) for ks in keysets}) == 1:
+            # keys themselves vary with the exemplar (dynamic keys): zip position-wise
+            out = {}
+            for pos in range(len(keysets[0])):
+                ks = [k_[pos] for k_ in keysets]
+                kk = ks[0] if all(k == ks[0] for k in ks) else W(ks)
+                out[kk] = _zip([r[k_[pos]] for r, k_ in zip(rs, keysets)], d + 1)
+            return out
+        raise _ShapeMismatch(f"dict keys differ between exemplars: {sorted(map(str, keysets[0]))[:8]} vs "
+                             f"{sorted(map(str, [k for k in keysets if k != keysets[0]][0]))[:8]}")
+    if all(isinstance(r, list) for r in rs) or all(isinstance(r, tuple) for r in rs):
+        if len({len(r) for r in rs}) != 1:
+            raise _ShapeMismatch(f"sequence lengths differ between exemplars: {[len(r) for r in rs]}")
+        out = [_zip([r[j] for r in rs], d + 1) for j in range(len(first))]
+        return out if isinstance(first, list) else tuple(out)
+    if any(isinstance(r, (dict, list, tuple)) for r in rs):
+        raise _ShapeMismatch(f"value kinds differ between exemplars: {[type(r).__name__ for r in rs]}")
+    if all(type(r) is type(first) and r == first for r in rs[1:]):
+        return first
+    return W(rs)
+
+
+def _case_only(vals, depth=0):
+    """every lock-step word among the values has exemplars that are equal up to letter case, and at least one such word exists"""
+    found = [False]
+
+    def walk(v, d):
+        if isinstance(v, W):
+            strs = [x for x in v.ex if isinstance(x, str)]
+            if len(strs) != len(v.ex):
+                return False
+            if len({x.upper() for x in strs}) != 1:
+                return False
+            found[0] = True
+            return True
+        if d > 6:
+            return True
+        if isinstance(v, dict):
+            return all(walk(k, d + 1) and walk(x, d + 1) for k, x in v.items())
+        if isinstance(v, (list, tuple)):
+            return all(walk(x, d + 1) for x in v)
+        return True
+    ok = all(walk(v, 0) for v in vals)
+    return ok and found[0]
 
 
 def _short(v, depth=0):
